@@ -63,12 +63,11 @@ Definition spec_trace (h : hcfg) (s : started) (d : delivery) : list ev :=
      | Ret [] => [ESettle true]
      | Ret outs =>
          let t := h_pubtopic h in
-         match h_pub h with
-         | PReal id _ => map (fun x => EPubDec x t outs) (s_pubdecs s)
-                         ++ [EPublish id t (map (fun m => (m, out_ctx h cin m, own_ctx d m)) outs); ESettle (accepts (d_pb d))]
-         | PDisabled => map (fun x => EPubDec x t outs) (s_pubdecs s) ++ [ESettle false]
-         | PNil => [ESettle false]                      (* no publisher: nobody sees the batch *)
-         end
+         map (fun x => EPubDec x t outs) (s_pubdecs s)
+         ++ match h_pub h with
+            | PReal id _ => [EPublish id t (map (fun m => (m, out_ctx h cin m, own_ctx d m)) outs); ESettle (accepts (d_pb d))]
+            | _ => [ESettle false]
+            end
      | _ => [ESettle false]
      end.
 
